@@ -90,4 +90,17 @@ CONFIG = {
     },
 }
 
+CONFIG["C09"] = {
+    "level": "proof", "proof": True, "rtc": True,
+    "explanation": "Contracts on the real _t_and_o_2_positions (1-D and 2-D), FullGrid.get_full_grid_as_array (nested-loop invariants: "
+                   "rows below the counter hold (position n div n_b, rotation n mod n_b), frame relative to loop entry), "
+                   "get_position_index / get_quaternion_index (all index vectors and the None default) with symbolic n_b, n_o, n_t. "
+                   "Bounded: real grids row by row, index helpers, and the decomposition from_full_array_to_o_b_t (bounded only).",
+    "trusted_base": [NUMPY, "assumed callee contracts (C07 post-conditions as stub objects): rotation grid has n_b rows "
+                     "(get_N, get_grid_as_array(only_upper=True)), direction grid has n_o rows; TranslationParser.trans_grid "
+                     "holds the Angstrom radii (C16)"],
+    "assumptions": ["from_full_array_to_o_b_t (np.unique(axis=0, return_index)) is only checked bounded, not proved",
+                    "'no row left NaN' follows from the row formula holding for every row index (NaN has no real-number model)"],
+}
+
 NOT_APPLICABLE = {}
